@@ -9,7 +9,10 @@ count).  The std / num-bigint / num-rational printers and parsers are dependenci
 property of positional notation (mirsym/models_fmtnum.py).  Claim per path: the value read back is a number, is exact,
 and equals z.  The same text behind the matching #b/#o/#d/#x prefix is pushed through lex::scan and parse::parse
 (literal clause).
-Inexact numbers are outside this check: the shortest-round-trip printer of doubles cannot be encoded.
+Finite inexact numbers at radix 10: marwood's own dispatch (which of `{:e}`, `{:.1}`, `{}` prints a double, the order in which
+the parsers are tried, the lexer's token classes) is executed; the library's printing of a double is an axiom (see
+models_fmtnum.write_f64): the text is a skeleton registered as a spelling of z, except for integer-valued doubles
+below 2^63, which go through the integer printer.
 """
 import z3
 from mirsym.values import *
@@ -37,7 +40,7 @@ def make_harness(prog, table, rep, radix, denoms, literal=False):
     PARSE = prog.resolve_crate('parse_text') if literal else None
 
     def harness(it):
-        z, dz = N.sym_number(it, rep, 'z', denoms if rep == 'Rational' else None)
+        z, dz = N.sym_number(it, rep, 'z', denoms if rep == 'Rational' else None, float_finite=True)
         it.ghost['desc'] = (dz, radix)
         # (number->string z radix)
         A = B.Args(fab, it)
@@ -81,6 +84,11 @@ def make_harness(prog, table, rep, radix, denoms, literal=False):
 
     def judge_number(it, num, dz, what, key):
         dn = N.describe(it, num)
+        if dz[0] == 'flo':
+            if dn[0] != 'flo': return viol(it, '%s is exact although z is inexact' % what, key + '-exact')
+            e = z3.fpEQ(N.fp(dn[1]), dz[1])
+            if not it.must(e): return viol(it, '%s is a different number' % what, key + '-different', z3.Not(e))
+            return None
         if dn[0] == 'flo': return viol(it, '%s is inexact' % what, key + '-inexact')
         if dn[0] == 'rat' and is_sym(dn[2]): dn = ('rat', dn[1], it.concretize(dn[2]))
         lt, eq = N.exact_cmp(dn, dz)
@@ -125,6 +133,13 @@ def native_verdict(replay, req):
     call = '(string->number (number->string %s %d) %d) via "%s"' % (z, radix, radix, text)
     if back.startswith(('PANIC', 'ABORT')): return True, '%s: %s' % (call, back)
     if back == 'NONE': return True, '%s => #f' % call
+    if z.startswith('D:'):
+        if not back.startswith('D:'): return True, '%s => exact %s' % (call, back)
+        if N.value_of(back) != N.value_of(z): return True, '%s => %s' % (call, back)
+        lit = replay.ask('evalc ' + core.hexs(PREFIX[radix] + text))
+        ok = lit.startswith('OK MD:') and N.value_of(lit[4:]) == N.value_of(z)
+        if not ok: return True, 'the literal %s%s evaluates to %s, not to %s' % (PREFIX[radix], text, lit, z)
+        return False, '%s => %s' % (call, back)
     if back.startswith('D:'): return True, '%s => inexact %s' % (call, back)
     if N.value_of(back) != N.value_of(z): return True, '%s => %s' % (call, back)
     # literal clause through the evaluator
@@ -167,6 +182,8 @@ def run(chk, ws, prog, tier, replays):
     for rep in ('Fixnum', 'BigInt', 'Rational'):
         for radix in RADICES:
             jobs.append(('%s/radix %d' % (rep, radix), make_harness(prog, table, rep, radix, denoms, literal=True)))
+    prog.model_f64_text = True
+    jobs.append(('Float/radix 10', make_harness(prog, table, 'Float', 10, denoms, literal=True)))
     seen = {}
     for name, res in explore_many(prog, [(n, h, {'on_panic': on_panic, 'reuse_solver': False}) for n, h in jobs], parallel=12, nproc_each=1):
         print('  harness %-30s %s' % (name, res.summary()), flush=True)
@@ -183,7 +200,8 @@ def run(chk, ws, prog, tier, replays):
                         '(unique digits d_i < r with value = sum d_i r^i; two\'s complement bit pattern for {:x} {:o} {:b} of primitive integers; sign and magnitude for BigInt); '
                         'Ratio formatting and Ratio / BigInt from_str_radix are transcribed from num-rational 0.4.1 / num-bigint 0.4.4',
                         'BigRational::to_f64 and f64::from_str_radix return an arbitrary double (only the exactness of the result is judged)']
-    chk.outside += ['inexact numbers (the shortest round-trip printer of doubles is not encoded)', 'denominators off the palette', 'bignums beyond 2^66',
+    chk.assumptions += ['doubles: `{}` and `{:e}` print a spelling that parses back to the same double, `{:.1}` of an integer-valued double prints its exact expansion (library axioms); the skeleton text keeps only the character classes']
+    chk.outside += ['NaN and infinities, inexact numbers at radix 2, 8, 16 (not required by the property)', 'denominators off the palette', 'bignums beyond 2^66',
                     'radices other than 2, 8, 10, 16']
 
 
